@@ -122,6 +122,11 @@ def Op.WF : Op R → Prop
   | .reshape _ invs cs => ReshapeWF invs ∧ (Op.reshape 0 invs cs).AmountsNonneg
   | op => op.AmountsNonneg
 
+instance (invs : List (RpInvReq R)) : Decidable (ReshapeWF invs) := by
+  unfold ReshapeWF; infer_instance
+instance (op : Op R) : Decidable op.WF := by
+  cases op <;> (unfold Op.WF; infer_instance)
+
 theorem Op.WF.nonneg {op : Op R} (h : op.WF) : op.AmountsNonneg := by
   cases op <;> first | exact h | exact h.2
 
